@@ -60,7 +60,8 @@ PLANS["C04"] = {
 PLANS["C05"] = {
     "apalache": True,
     "props": ["C05"], "ops": ["cuu", "cud", "cuf", "cub", "cnl", "cpl", "cha", "vpa", "cup", "bs", "cr"],
-    "mc": [mc("Psweep", geoms("GLong", "GLong"), ports({"api": 1, "chars": 3}, {"api": 1, "chars": 1}), invariants=["WellFormedInv", "Emit"]),
+    "mc": [mc("Phuge", geoms("GHuge", "GHuge"), ports({"api": 1}, {"api": 1}), invariants=["WellFormedInv", "Emit"], workers=4),
+           mc("Psweep", geoms("GLong", "GLong"), ports({"api": 1, "chars": 3}, {"api": 1, "chars": 1}), invariants=["WellFormedInv", "Emit"]),
            mc("C05", geoms("GQuick", "GThorough"), ports({"api": 1, "chars": 2, "bytes": 5}, ALLP))],
     "gen": [gen("star", 12, 300, focus="C05", steps=40, every=6, per=24), walk("C05", 160, 4000), walk("C05", 80, 2000, port="chars"), walk("C05", 16, 400, geom="large", steps=60)],
     "rule": "MC: every movement operation x every parameter in {absent,0,1,..,size+2,9999} (both independently for CUP) from "
@@ -68,7 +69,8 @@ PLANS["C05"] = {
 }
 PLANS["C06"] = {
     "props": ["C06"], "ops": ["ind", "lf", "ri", "il", "dl", "decstbm"],
-    "mc": [mc("Psweep", geoms("GLong", "GLong"), ports({"api": 1, "chars": 3}, {"api": 1, "chars": 1}), invariants=["WellFormedInv", "Emit"]),
+    "mc": [mc("Phuge", geoms("GHuge", "GHuge"), ports({"api": 1}, {"api": 1}), invariants=["WellFormedInv", "Emit"], workers=4),
+           mc("Psweep", geoms("GLong", "GLong"), ports({"api": 1, "chars": 3}, {"api": 1, "chars": 1}), invariants=["WellFormedInv", "Emit"]),
            mcseq("C06seq", {"quick": 3, "thorough": 4}, ports({"api": 1, "chars": 3}, {"api": 1, "chars": 3}), disp=True),
            mc("C06", geoms("GRowsQuick", "GRows"), ports({"api": 1, "chars": 3}, ALLP), disp=True)],
     "gen": [gen("star", 12, 300, focus="C06", steps=40, every=6, per=24), walk("C06", 160, 4000), walk("C06", 80, 2000, port="chars"), walk("C06", 8, 200, geom="large", steps=60)],
@@ -78,7 +80,8 @@ PLANS["C06"] = {
 }
 PLANS["C07"] = {
     "props": ["C07"], "ops": ["ed", "el", "ech"],
-    "mc": [mc("Psweep", geoms("GLong", "GLong"), ports({"api": 1, "chars": 3}, {"api": 1, "chars": 1}), invariants=["WellFormedInv", "Emit"]),
+    "mc": [mc("Phuge", geoms("GHuge", "GHuge"), ports({"api": 1}, {"api": 1}), invariants=["WellFormedInv", "Emit"], workers=4),
+           mc("Psweep", geoms("GLong", "GLong"), ports({"api": 1, "chars": 3}, {"api": 1, "chars": 1}), invariants=["WellFormedInv", "Emit"]),
            mc("C07", geoms("GRowsQuick", "GRows"), ports({"api": 1, "chars": 3}, ALLP), disp=True)],
     "gen": [gen("star", 12, 300, focus="C07", steps=40, every=6, per=24), walk("C07", 160, 4000), walk("C07", 80, 2000, port="chars")],
     "rule": "MC: ED/EL selectors {absent,0..5,9999}, ECH counts {absent,0,..,C+2,9999} from marker-filled coloured grids, cursor at "
@@ -111,7 +114,8 @@ PLANS["C12"] = {
 }
 PLANS["C13"] = {
     "props": ["C13"], "ops": ["ich", "dch"],
-    "mc": [mc("Psweep", geoms("GLong", "GLong"), ports({"api": 1, "chars": 3}, {"api": 1, "chars": 1}), invariants=["WellFormedInv", "Emit"]),
+    "mc": [mc("Phuge", geoms("GHuge", "GHuge"), ports({"api": 1}, {"api": 1}), invariants=["WellFormedInv", "Emit"], workers=4),
+           mc("Psweep", geoms("GLong", "GLong"), ports({"api": 1, "chars": 3}, {"api": 1, "chars": 1}), invariants=["WellFormedInv", "Emit"]),
            mcseq("C13seq", {"quick": 3, "thorough": 4}, ports({"api": 1, "chars": 3}, {"api": 1, "chars": 3}), disp=True),
            mc("C13", geoms("GCols", "GCols"), ports({"api": 1, "chars": 2}, ALLP), disp=True)],
     "gen": [gen("star", 12, 300, focus="C13", steps=40, every=6, per=24), walk("C13", 160, 4000), walk("C13", 80, 2000, port="chars"), walk("C16", 80, 2000)],
@@ -211,7 +215,9 @@ PLANS["C01"] = {
            mc("C12", geoms("GSmall", "GSmall"), ports({"api": 1, "chars": 1}, ALLP)),
            mc("C16", geoms("GRowsQuick", "GRows"), ports({"api": 2}, {"api": 1}), disp=True, display_after=True),
            mc("C08", geoms("GTiny", "GTiny"), ports({"api": 1, "chars": 1}, ALLP)),
-           mc("C20", geoms("GTiny", "GTiny"), ports({"api": 3}, {"api": 1}))],
+           mc("C20", geoms("GTiny", "GTiny"), ports({"api": 3}, {"api": 1})),
+           mcrec("directed", 1, True, ports({"chars": 1, "bytes": 2}, {"chars": 1, "chars1": 1, "bytes": 1})),
+           mcrec("osc", 1, True, ports({"chars": 2, "bytes": 3}, {"chars": 1, "bytes": 1}))],
     "gen": [gen("star", 12, 300, focus="", steps=40, every=6, per=24), gen("soup", 400, 20000), walk("", 200, 6000), walk("", 100, 3000, port="chars"), walk("", 100, 3000, port="bytes", utf8=0),
             gen("recsoup", 200, 6000), gen("recsoup", 200, 6000, port="bytes"), walk("", 12, 400, geom="large", steps=60),
             gen("soup", 12, 400, geom="large"), gen("captured", 7, 140, maxbytes=1500)],
